@@ -76,6 +76,9 @@ func init() {
 			{Name: "mus", Module: "MUS", Cfg: "MUS_quick.cfg", Tier: "quick", Workers: 8, XmxMB: 6000, Timeout: 10 * time.Minute, ToCases: musCases},
 			{Name: "mus", Module: "MUS", Cfg: "MUS_thorough.cfg", Tier: "thorough", Workers: 16, XmxMB: 12000, Timeout: 30 * time.Minute, ToCases: musCases},
 			{Name: "mus-unminimised", Module: "MUS", Cfg: "MUS_ascoded.cfg", Workers: 4, XmxMB: 4000, Timeout: 10 * time.Minute, ExpectViolation: "ResultIsMUS"},
+			// the MUS methods keep one solver over changing assumptions: what it learns must not depend on them
+			{Name: "cdcl-assumption-shortcut", Module: "CDCLAssume", Cfg: "CDCLAssume_shortcut.cfg", Workers: 4, XmxMB: 4000, Timeout: 10 * time.Minute, ExpectViolation: "LearnEntailed"},
+			{Name: "cdcl-assumption-witness", Module: "CDCLAssume", Cfg: "CDCLAssume_witness.cfg", Workers: 4, XmxMB: 4000, Timeout: 10 * time.Minute},
 		},
 		TraceModule: "ExplainTrace",
 		Amplify:     amplifyExplain,
